@@ -6,6 +6,7 @@ request path (truncated, over-long, unknown) gets an answer that the model state
 -/
 import PrimaiteModel.Lemmas.FileSystemApi
 import PrimaiteModel.Props.C15
+import PrimaiteModel.Gen.FileSystemMethods
 namespace Primaite.FileSystem
 
 /-! ### Inv under the API operations -/
@@ -285,6 +286,36 @@ theorem C15_api_copy_counts (s : State) (F x G : Name) (f : File) (hf : getFile 
     · exact ⟨rfl, rfl⟩
     · exact createFolder_counters s G
   exact ⟨by simp [hc.1], by simp [updFolder, hc.2]⟩
+
+/-! ### translator tie: the two Folder methods that carry the repairs, translated from the source, ARE the model -/
+
+/-- `Folder.restore_file` as translated statement by statement from folder.py is the model's `Folder.restoreFile`,
+for every folder and name (semantic tie: replaces the textual snapshot of this method). -/
+theorem C15_gen_restore_file (g : Folder) (n : Name) :
+    Gen.FileSystemMethods.folderRestoreFile g n = g.restoreFile n := by
+  unfold Gen.FileSystemMethods.folderRestoreFile Folder.restoreFile
+  cases g.getFile n true <;> simp [File.restore]
+
+/-- `Folder.add_file` as translated from folder.py is the model's `Folder.addFileApi` (refusals, forced replacement of
+a live namesake, registration), for every folder, file and force flag. -/
+theorem C15_gen_add_file (g : Folder) (f : File) (force : Bool) :
+    Gen.FileSystemMethods.folderAddFile g f force = g.addFileApi f force := by
+  unfold Gen.FileSystemMethods.folderAddFile Folder.addFileApi Folder.addFileForced Folder.addFile
+  cases hg : g.getFile f.name false <;> cases force <;> simp [hg]
+  all_goals (split <;> simp_all [Folder.addFile])
+
+/-- The model's request-level `create_file` uses `addFile` directly; that is what `add_file` does in both situations it
+is called in (re-adding the file `get_file` found, or adding a new file whose name is not live). -/
+theorem C15_create_file_uses_add_file (g : Folder) (x : Name) (i : Nat) :
+    (∀ f, g.getFile x = some f → g.addFileApi f true = some (g.addFile f)) ∧
+    (g.getFile x = none → ∀ force, (∀ y ∈ g.files, y.id ≠ i) → g.addFileApi { id := i, name := x } force = some (g.addFile { id := i, name := x })) := by
+  constructor
+  · intro f hf
+    simp [Folder.addFileApi, addFileForced_existing hf]
+  · intro hf force hid
+    have hany : g.files.any (fun y => y.id == i) = false := by
+      simp only [List.any_eq_false, beq_iff_eq]; exact fun y hy => hid y hy
+    simp [Folder.addFileApi, hf, hany, addFileForced_new (f := { id := i, name := x }) hf]
 
 /-! ### every request path is answered -/
 
